@@ -76,3 +76,38 @@ Proof. split; [discriminate|]. intros w H. inversion H; subst. split; reflexivit
 
 Lemma any_eq_empty_refuted : exists h, ar_crash (a_run false h) = true.
 Proof. exists [ACtorDefault 0; ACtorValue 1 0 1; AEq 0 1]. reflexivity. Qed.
+
+(* copy construction / copy assignment install EXACTLY the source's stored state (type and value,
+   Leibniz equal - sign bit, shadow component and NaN included), whatever the target held before
+   and whether or not the two compared equal *)
+Lemma any_copy_exact fixed w i j y x w' :
+  a_store w j = Some y ->
+  a_step fixed w (AAssignCopy i j) = AOk x w' \/ a_step fixed w (ACtorCopy i j) = AOk x w' ->
+  exists y', a_store w' i = Some y' /\ abs_any y' = abs_any y /\
+             (i <> j -> a_store w' j = Some y).
+Proof.
+  intros Hj [H|H].
+  - destruct (any_gives fixed w (AAssignCopy i j) x w' i (abs_any y) H) as (y' & H1 & H2).
+    { cbn [agives]. rewrite Hj. reflexivity. }
+    exists y'. repeat split; auto. intro Hne.
+    rewrite (any_frame fixed w _ x w' j H); [exact Hj|]. cbn. intros [E|[]]. congruence.
+  - destruct (any_gives fixed w (ACtorCopy i j) x w' i (abs_any y) H) as (y' & H1 & H2).
+    { cbn [agives]. rewrite Hj. reflexivity. }
+    exists y'. repeat split; auto. intro Hne.
+    rewrite (any_frame fixed w _ x w' j H); [exact Hj|]. cbn. intros [E|[]]. congruence.
+Qed.
+
+(* operator== of the payload is coarser than identity, and not reflexive on NaN *)
+Lemma peqv_coarser :
+  (peqv 6 0 1 = true /\ 0 <> 1) /\ (peqv 7 17 18 = true /\ 17 <> 18) /\ peqv 6 2 2 = false.
+Proof. repeat split; try reflexivity; discriminate. Qed.
+
+(* hence skipping the copy when the operands compare equal would NOT be a copy *)
+Lemma skip_if_equal_refuted :
+  exists w i j y w' y', a_store w j = Some y /\ assign_copy_skip_if_equal w i j = AOk AUnit w' /\
+                        a_store w' i = Some y' /\ abs_any y' <> abs_any y.
+Proof.
+  set (w := match a_run true [ACtorValue 0 6 0; ACtorValue 1 6 1] with r => ar_world r end).
+  exists w, 0, 1, (Some {| h_id := 1; h_tag := 6; h_val := 1 |}), w, (Some {| h_id := 0; h_tag := 6; h_val := 0 |}).
+  repeat split; try reflexivity. cbn. discriminate.
+Qed.
